@@ -111,6 +111,7 @@ def gen_single(rng, quick):
     r = rng.random()
     if r < 0.5:
         case["kind"] = "kn"
+        case["ft_copy"] = rng.random() < 0.5          # fit_transform(K, copy=...)
         case["kernel"] = "linear" if rng.random() < 0.8 else "rbf"
         if case["kernel"] == "rbf":
             case["gamma"] = 10 ** rng.uniform(-2, 0) / (1 + offset) / (mag * mag)
@@ -219,8 +220,8 @@ def run_impl(case):
                            all=float(kn.K_fit_all_), scale=float(kn.scale_),
                            TK=np.asarray(kn.transform(pr(K)), dtype=float).tolist(),
                            TKt=np.asarray(kn.transform(pr(Kt)), dtype=float).tolist(),
-                           FT=np.asarray(KernelNormalizer(**flags).fit_transform(pr(K), sample_weight=pw()),
-                                         dtype=float).tolist())
+                           FT=np.asarray(KernelNormalizer(**flags).fit_transform(
+                               pr(K), sample_weight=pw(), copy=case.get("ft_copy", True)), dtype=float).tolist())
                 if w is not None and case.get("pow2") and exact_w:
                     kn2 = KernelNormalizer(**flags).fit(pr(K), sample_weight=pw(2.0 ** case["pow2"]))
                     rec["pow2_same"] = bool(
@@ -344,13 +345,39 @@ def penrose_residuals(rec):
 
 
 # ------------------------------------------------------------------------------ oracle (search only)
+def shape_problem(case, rec):
+    """every output has the shape of its input (K_fit_rows_: one entry per column); else a message"""
+    def shp(x):
+        return tuple(np.shape(np.asarray(x, dtype=float)))
+    if case["kind"] == "kn":
+        exp = dict(rows=(shp(rec["K"])[1],), TK=shp(rec["K"]), TKt=shp(rec["Kt"]), FT=shp(rec["K"]))
+    else:
+        exp = dict(rows=(shp(rec["Knm"])[1],), T=shp(rec["Knm"]), Tt=shp(rec["Kt"]), FT=shp(rec["Knm"]))
+    names = dict(rows="K_fit_rows_", TK="transform(K)", TKt="transform(K_test)", FT="fit_transform",
+                 T="transform(Knm)", Tt="transform(K_test)")
+    for k, e in exp.items():
+        if shp(rec[k]) != e:
+            return "%s has shape %s, expected %s" % (names[k], shp(rec[k]), e)
+    return None
+
+
 def oracle(case, rec):
-    """Direct statement of C12 on the implementation's outputs, in extended precision.
-    None or a message."""
+    """Direct statement of C12 on the implementation's outputs (see oracle_body); an output of an
+    unexpected shape, or one on which the statement cannot even be evaluated, is a failure too."""
     if "error" in rec:
         return "raised %s: %s" % (rec["error"], rec.get("error_msg"))
-    if case["kind"] in ("knhist", "skhist"):
-        return H.oracle(case, rec)
+    try:
+        if case["kind"] in ("knhist", "skhist"):
+            return H.oracle(case, rec)
+        return shape_problem(case, rec) or oracle_body(case, rec)
+    except Exception as e:  # noqa
+        return ("the outputs of the implementation are malformed: evaluating the property on them raised %s: %s"
+                % (type(e).__name__, str(e)[:160]))
+
+
+def oracle_body(case, rec):
+    """Direct statement of C12 on the implementation's outputs, in extended precision.
+    None or a message."""
     L = np.longdouble
     # float32 arrays are processed in float32 by both classes (no promotion): float32 accuracy
     tf = 1e5 if case.get("present") == "float32" else 1.0
@@ -508,7 +535,7 @@ def run(ctx):
                  penrose_residual_max=[0.0, 0.0, 0.0, 0.0], feature_magnitude={}, rcond={}, presentation={},
                  pinv_truncates_real_modes=0, eigenvalue_between_relative_and_absolute_cutoff=0,
                  histories=dict(steps=0, refits=0, rejected_fits=0, weighted_then_unweighted=0, set_params=0,
-                                rejected_transforms=0, raised_in_impl=0, inplace_transforms=0,
+                                rejected_transforms=0, raised_in_impl=0, inplace_transforms=0, inplace_fit_transforms=0,
                                 weights_view_of_K_requested=0))
     for _ in range(ncases):
         c = gen_case(ctx.rng, ctx.quick)
@@ -533,7 +560,8 @@ def run(ctx):
             hs["weighted_then_unweighted"] += sum(1 for a, b in zip(good, good[1:])
                                                   if a["w"] is not None and b["w"] is None)
             hs["set_params"] += sum(1 for st in c["steps"] if st["op"] == "set")
-            hs["inplace_transforms"] += sum(1 for st in c["steps"] if st.get("inplace"))
+            hs["inplace_transforms"] += sum(1 for st in c["steps"] if st.get("inplace") and st["op"] == "transform")
+            hs["inplace_fit_transforms"] += sum(1 for st in c["steps"] if st.get("inplace") and st["op"] == "fit_transform")
             hs["weights_view_of_K_requested"] += sum(1 for st in c["steps"] if st.get("wview"))
             hs["rejected_transforms"] += sum(1 for st in c["steps"] if st["op"] == "transform"
                                              and (st.get("unfitted") or st.get("badcols")))
